@@ -6,6 +6,7 @@ import copy
 import itertools
 
 from ..loader import norm, own_nodes, AnalysisError
+from ..absint import parent_map, enclosing
 from ..report import Report
 
 PROP = 'C06'
@@ -59,12 +60,19 @@ def run(ctx):
     rep.rule('R6.5', 'merge loops: Comparable keys, exhausted-side handling (C04 R4.3, C20 R20.1/R20.4/R20.5)')
     rep.assumptions = ['sort is stable and correct (C05)', 'itertools.groupby contract']
     rep.trusted = ['C04, C05, C11, C20 rules reused on the join functions']
-    r61(ctx, rep)
-    r62(ctx, rep)
-    r63(ctx, rep)
-    r64_65(ctx, rep)
+    ctx.attempt(r61, ctx, rep)
+    ctx.attempt(r62, ctx, rep)
+    ctx.attempt(r63, ctx, rep)
+    ctx.attempt(r64_65, ctx, rep)
     rep.rule('R6.11', 'merge cursors are itertools.groupby over their side; a groupby group is iterated once or materialised first')
-    r611(ctx, rep)
+    ctx.attempt(r611, ctx, rep)
+    rep.rule('R6.14', 'a pair of groups with equal keys yields their cross product: every row emitted for it is produced inside a loop over the left group and a loop over the right group')
+    ctx.attempt(r614, ctx, rep)
+    rep.rule('R6.13', 'the inputs of the merges are sorted ascending: no sort applied in a join constructor is given a reverse flag')
+    ctx.attempt(r613, ctx, rep)
+    from .common import check_side_mismatches as _sides
+    rep.rule('R6.12', 'a key / value getter built from the header of one table is applied to rows of that table only')
+    ctx.floor('two_table_functions', ctx.attempt(_sides, ctx, rep, 'R6.12', ctx.functions(['petl.transform.joins'])) or 0, 3)
     from .plumbing import check_plumbing
     rep.rule('R6.6', 'view -> iterator plumbing of the merge joins: self.X reaches the parameter named X')
     ctx.floor('plumbing_sites', check_plumbing(ctx, rep, 'R6.6', ['petl.transform.joins']), 15)
@@ -459,3 +467,98 @@ def r611(ctx, rep):
                                          '`%s` is iterated inside another loop without having been materialised: a group '
                                          'delivered by itertools.groupby is a one-shot iterator, the second outer pass finds it '
                                          '(partly) consumed, so partners are skipped or rows dropped' % nm, inner)
+
+
+# ------------------------------------------------------------------------- R6.13
+def r613(ctx, rep):
+    """The merge loops advance the side with the smaller key: both inputs must be in ascending key order.  Every sort a
+    join constructor applies is bound to the signature of sort (positional arguments included): `reverse` must be absent
+    or False."""
+    from .sortapp import sort_applications
+    n = 0
+    for fn in ctx.functions(['petl.transform.joins']):
+        if fn.name != '__init__' or fn.cls is None:
+            continue
+        for app in sort_applications(ctx, fn):
+            n += 1
+            r = app.args.get('reverse')
+            c = norm(app.node)[:70]
+            if app.opaque:
+                rep.undecided('R6.13', fn, c, 'arguments of the sort are spread from something the analysis cannot see', app.node)
+            elif r is None or (isinstance(r, ast.Constant) and r.value is False):
+                rep.held('R6.13', fn, c, 'ascending', app.node)
+            else:
+                rep.violated('R6.13', fn, c,
+                             'this input is sorted with reverse=`%s` (argument bound by position or keyword to the signature of '
+                             'sort): whenever that value is true the input is in descending key order and the ascending merge '
+                             'matches / drops the wrong rows' % norm(r), app.node)
+    if n < 4:
+        raise AnalysisError('anchor vanished: only %d sort applications in the join constructors' % n)
+
+
+# ------------------------------------------------------------------------- R6.14
+def r614(ctx, rep):
+    """|matched rows for a key| = |left group| x |right group|: in the generator the merge calls with both groups, every
+    yield on every path (both groups present) sits inside a loop over each of the two groups."""
+    from ..ladder import paths, test_defs
+    n = 0
+    for fq in ('petl.transform.joins:iterjoin',):
+        fn = ctx.project.need_fn(fq)
+        sites = []
+        for c in ast.walk(fn.node):
+            if isinstance(c, ast.Call) and isinstance(c.func, ast.Name) and c.func.id in fn.nested and len(c.args) == 2 and \
+                    not c.keywords and not any(isinstance(a, ast.Constant) and a.value is None for a in c.args):
+                sites.append(c)
+        if not sites:
+            rep.undecided('R6.14', fn, 'matched groups', 'no call of a nested generator with both groups found', fn.node)
+            continue
+        seen = set()
+        for c in sites:
+            g = fn.nested[c.func.id]
+            if g in seen:
+                continue
+            seen.add(g)
+            params = g.posparams
+            if len(params) != 2:
+                continue
+            n += 1
+            val = {'%s is None' % p: False for p in params}
+            val.update({p: True for p in params})
+            # aliases: x = list(p) / tuple(p) / p
+            alias = {p: p for p in params}
+            for x in ast.walk(g.node):
+                if isinstance(x, ast.Assign) and len(x.targets) == 1 and isinstance(x.targets[0], ast.Name):
+                    v = x.value
+                    if isinstance(v, ast.Call) and isinstance(v.func, ast.Name) and v.func.id in ('list', 'tuple') and len(v.args) == 1:
+                        v = v.args[0]
+                    if isinstance(v, ast.Name) and v.id in alias:
+                        alias[x.targets[0].id] = alias[v.id]
+            pm = parent_map(g.node)
+            bad = []
+            n_y = 0
+            for pth in paths(g.node.body, val, test_defs(g.node)):
+                for st in pth.effects:
+                    for y in ast.walk(st):
+                        if not isinstance(y, ast.Yield):
+                            continue
+                        n_y += 1
+                        over = set()
+                        for anc, _ in enclosing(pm, y, stop=g.node):
+                            if isinstance(anc, ast.For):
+                                for nm in ast.walk(anc.iter):
+                                    if isinstance(nm, ast.Name) and nm.id in alias:
+                                        over.add(alias[nm.id])
+                        if over != set(params):
+                            bad.append((y, sorted(set(params) - over)))
+            if bad:
+                for y, missing_side in bad[:2]:
+                    rep.violated('R6.14', g, 'yield ' + norm(y.value)[:40],
+                                 'with both groups present this row is not produced inside a loop over %s: a key that occurs m '
+                                 'times on the left and n times on the right no longer yields m x n rows (the join degrades to a '
+                                 'semi-join when the other side has duplicates)' % ' / '.join(missing_side), y)
+            elif n_y:
+                rep.held('R6.14', g, 'matched groups', 'every yield is inside loops over both groups', g.node)
+            else:
+                rep.violated('R6.14', g, 'matched groups', 'nothing is yielded for a pair of groups with equal keys', g.node)
+    if not n:
+        rep.undecided('R6.14', ('petl.transform.joins', 'iterjoin'), 'matched groups', 'generator of matched rows not recognised', None)
